@@ -238,7 +238,8 @@ struct CEmitter {
     } else if (k == "mem") {
       static const std::map<std::string, std::string> ty = {{"i8", "signed char"}, {"u8", "unsigned char"}, {"i16", "short"}, {"u16", "unsigned short"}, {"i32", "int"}, {"u32", "unsigned"}, {"i64", "long long"}};
       std::string t = ty.at(st[3].s), d = std::to_string((long long) st[4].num());
-      ind(); out += "*(" + t + " *)(buf + " + d + ") = (" + t + ")" + opnd(st[2]) + "; " + opnd(st[1]) + " = *(" + t + " *)(buf + " + d + ");\n";
+      // narrowed explicitly before the store (see the MIR emitter): forwarding of an un-narrowed stored value is not a history matter
+      ind(); out += "{ long long nv = (long long)(" + t + ")" + opnd(st[2]) + "; *(" + t + " *)(buf + " + d + ") = (" + t + ")nv; " + opnd(st[1]) + " = *(" + t + " *)(buf + " + d + "); }\n";
     } else if (k == "ret") ret(st[1]);
   }
   std::string module(const Json &m, const std::map<std::string, FuncInfo> &all) {
